@@ -59,8 +59,24 @@ Proof. split; vm_compute; reflexivity. Qed.
     environment can produce (etcd-raft hands out no gap and nothing that is not stored, only
     executed heights are reported); [tr] is what the driver observes. *)
 
+(** The commit queue is an explicit part of the model: a FIFO with blocking hand-over.  What a step hands
+    over is appended in publish order, the executor takes the head, a crash empties it.  [b_ev] of a
+    trace is what the consumer takes from Order.Commit(), in that order; the lagging-consumer histories
+    of the check (a consumer that stays away while more than the queue's 1024 slots are filled, solo with
+    the executor several blocks behind) check "delivery order = publish order, a delivered event never
+    changes" on the implementation. *)
+Theorem C20_queue_fifo : forall d c lg s op s' o, rstep d c lg s op = Some (s', o) ->
+  match op with
+  | OExec => queue (ex s') = tl (queue (ex s)) /\ o_ev o = []
+  | OCrash _ => queue (ex s') = o_ev o
+  | _ => queue (ex s') = queue (ex s) ++ o_ev o
+  end.
+Proof. exact queue_fifo. Qed.
+Print Assumptions C20_queue_fifo.
+
 (** C20_contiguous: in every incarnation the heights handed to the executor are e+1, e+2, ... from
-    the executed height the incarnation started with.  For every flag setting and every log. *)
+    the executed height the incarnation started with.  For every flag setting and every log.
+    (About the order in which the queue hands the events to the consumer: see C20_queue_fifo.) *)
 Theorem C20_contiguous : forall d c lg ops tr,
   rrun d c lg (init_sys d c) ops = Some tr -> contiguous (shadow_init (c_init c)) ops tr.
 Proof. exact contiguous_all. Qed.
